@@ -1,0 +1,34 @@
+//go:build verif
+
+package readline
+
+import (
+	"github.com/reeflective/readline/internal/completion"
+	"github.com/reeflective/readline/internal/core"
+	"github.com/reeflective/readline/internal/term"
+)
+
+// VerifSetTermWidth sets the terminal width used when stderr is not a terminal.
+// Verification builds only.
+func VerifSetTermWidth(width int) {
+	term.VerifSetDefaultWidth(width)
+}
+
+// VerifSetCaller makes keys the key sequence commands see as their caller.
+// Verification builds only.
+func (rl *Shell) VerifSetCaller(keys []byte) {
+	core.MatchedKeys(rl.Keys, keys)
+}
+
+// VerifCompletionGroups returns the grids of the completion engine.
+// Verification builds only.
+func (rl *Shell) VerifCompletionGroups() []completion.VerifGroup {
+	return rl.completer.VerifGroups()
+}
+
+// VerifCompleted returns the line including any candidate inserted by the
+// completion engine, and the value of that candidate. Verification builds only.
+func (rl *Shell) VerifCompleted() (line string, selected string) {
+	l, _ := rl.completer.Line()
+	return string(*l), rl.completer.VerifSelected()
+}
